@@ -27,6 +27,7 @@ from harness.common import frac, deep_compare
 PID = "C25"
 THEOREMS = [
     "PorepyVerif.C25.cells_preserved",
+    "PorepyVerif.C25.tags_mark_coupled_of_aligned",
     "PorepyVerif.C25.tags_mark_coupled",
     "PorepyVerif.C25.split_face_pairs",
     "PorepyVerif.C25.split_normals_opposite",
@@ -36,14 +37,14 @@ THEOREMS = [
 LEAN_MODULES = ["PorepyVerif.C25.Props"]
 AUDIT = "PorepyVerif/C25/Audit.lean"
 DRIVER = "PorepyVerif/C25/Driver.lean"
-N = {"quick": 60, "thorough": 1500}
-DISABLED = True
+N = {"quick": 40, "thorough": 800}
 
-RULE = ("kinds: cart2 (45%): pp.meshing.cart_grid / pp.create_mdg('cartesian') on 2-6 x 2-6 cells of dyadic size with 1-3 axis-aligned line "
+RULE = ("kinds: cart2 (45%): pp.meshing.cart_grid / pp.create_mdg('cartesian') (80%) or pp.meshing.tensor_grid / pp.create_mdg('tensor_grid') with non-uniform dyadic "
+        "node coordinates (20%) on 2-6 x 2-6 cells of dyadic size with 1-3 axis-aligned line "
         "fractures whose end points are grid nodes (10%: moved off the nodes by < 0.3 cell so that snapping is exercised), interior lines only, "
         "ends on the domain boundary allowed; a third of the cases are built as X / T / L patterns, the rest random (collinear overlapping fractures "
         "excluded). cart3 (45%): 2-4 cells per direction, 1-3 axis-aligned rectangles on interior grid planes, X / T / L and random. "
-        "simplex (quick: 2 fixed-size cases, thorough: 10%): gmsh triangle / tetrahedral meshes of the unit square / cube with 1-3 fractures "
+        "simplex (corpus: 2 cases, quick: 4%, thorough: 10%): gmsh triangle / tetrahedral meshes of the unit square / cube with 1-3 fractures "
         "(X, T, L, boundary-touching) - oracle only. non-trivial = at least two fractures that meet, or a fracture touching the boundary; "
         "distinct = distinct cases")
 TRUSTED = [
@@ -54,10 +55,14 @@ TRUSTED = [
     "the side flag (cell centre - face centre) . normal <= 0 of update_cell_connectivity is input data of the model (computed by the harness with exact rationals)",
     "scipy sparse format conversions (csc/csr, nonzero ordering, merge_matrices / stack_mat) are modelled as row lists of the incidence matrix",
 ]
-EXPLANATION = ("CORE: Lean model = face-splitting bookkeeping of split_faces over a list of fractures + mortar cell ordering of create_interfaces/_init_projections; "
-               "theorems over all inputs (hypotheses: fracture faces untagged => interior with one cell per side, fracture face sets disjoint, one host face per lower-dim cell). "
-               "Correspondence ties the model to cart_grid on every hosting subdomain (3d->2d, 2d->1d, 1d->0d); the geometric statements (centres, measures, outward normals, "
-               "volume, containment) and all simplex cases are decided by the oracle only.")
+EXPLANATION = ("CORE: Lean model = face-splitting bookkeeping of split_faces over a list of fractures (all branches: nothing to duplicate, fracture on the boundary -> duplicates removed, "
+               "ValueError, assertion, split) + mortar cell ordering of create_interfaces/_init_projections. Theorems over ALL inputs: cells_preserved (any run that does not raise), "
+               "tags_mark_coupled(_of_aligned), and for valid inputs (Host.Valid: fracture faces that carry no tag are interior with one cell per side, fracture face sets disjoint, one host "
+               "face per lower-dimensional cell) split_face_pairs (no error; exactly two coupled faces f and its duplicate d with one incident cell each, exactly one where the host is tagged "
+               "= ends at another fracture), split_normals_opposite, mortar_side_counts and mortar_after_split (two sides of nLow cells, side one on the original faces, side two on the duplicates; "
+               "one side at T/L ends). Proof by an invariant of the loop of split_faces (Lemmas.lean: Inv / Done). "
+               "Correspondence ties the model to cart_grid / tensor_grid / create_mdg on every hosting subdomain (3d->2d, 2d->1d, 1d->0d); the geometric statements (centres, measures, outward "
+               "normals, volume, containment, node splitting) and all simplex cases are decided by the oracle only.")
 ASSUMPTIONS = [
     "fracture networks are valid: fractures lie on interior grid lines / planes, no two fractures share a host face, every fracture has positive measure",
     "geometric comparisons use tolerance 1e-10 (relative to the domain size)",
@@ -80,6 +85,8 @@ def _snapped(case):
     out = []
     if case["kind"] != "cart":
         return [[[F(x) for x in row] for row in f] for f in case["fracs"]]
+    if "xs" in case:  # tensor grids: fractures are generated on the nodes
+        return [[[F(x) for x in row] for row in f] for f in case["fracs"]]
     h = [F(p) / n for p, n in zip(case["phys"], case["nx"])]
     for f in case["fracs"]:
         rows = []
@@ -97,8 +104,26 @@ def _round_half_even(q):
     return fl
 
 
-def _build(case, tmpdir=None):
-    """The real mixed-dimensional grid of the case."""
+_BUILD_CACHE = {}
+
+
+def _build(case):
+    """The real mixed-dimensional grid of the case (the last one is kept: impl_run and oracle look at the same object, read-only)."""
+    k = json.dumps(case, sort_keys=True)
+    if k not in _BUILD_CACHE:
+        _BUILD_CACHE.clear()
+        try:
+            _BUILD_CACHE[k] = ("ok", _build0(case))
+        except Exception as e:
+            _BUILD_CACHE[k] = ("exc", e)
+    kind, val = _BUILD_CACHE[k]
+    if kind == "exc":
+        raise val
+    return val
+
+
+def _build0(case, tmpdir=None):
+    """Build the mixed-dimensional grid with the real code (cart_grid / create_mdg)."""
     import porepy as pp
     from pathlib import Path
 
@@ -108,6 +133,15 @@ def _build(case, tmpdir=None):
     keys = ["xmax", "ymax", "zmax"][:dim]
     box = {k: p for k, p in zip(keys, phys)}
     box.update({k.replace("max", "min"): 0.0 for k in keys})
+    if case["kind"] == "cart" and "xs" in case:
+        xs = [np.array([_fl(x) for x in c]) for c in case["xs"]]
+        if case.get("entry") == "create_mdg":
+            dom = pp.Domain(box)
+            fo = [pp.LineFracture(f) if dim == 2 else pp.PlaneFracture(f) for f in fr]
+            net = pp.create_fracture_network(fo, dom)
+            margs = {"xyz"[d] + "_pts": xs[d] for d in range(dim)}
+            return pp.create_mdg("tensor_grid", margs, net)
+        return pp.meshing.tensor_grid(fr, *xs)
     if case["kind"] == "cart":
         nx = list(case["nx"])
         if case.get("entry") == "create_mdg":
@@ -175,7 +209,10 @@ def _unsplit0(case):
 
     phys = np.array([_fl(p) for p in case["phys"]])
     fr = _frac_arrays(case)
-    if case["dim"] == 2:
+    if "xs" in case:
+        xs = [np.array([_fl(x) for x in c]) for c in case["xs"]]
+        subdomains = structured._tensor_grid_2d(fr, *xs) if case["dim"] == 2 else structured._tensor_grid_3d(fr, *xs)
+    elif case["dim"] == 2:
         subdomains = structured._cart_grid_2d(fr, np.asarray(case["nx"]), physdims=phys)
     else:
         subdomains = structured._cart_grid_3d(fr, np.asarray(case["nx"]), physdims=phys)
@@ -365,7 +402,7 @@ def _faces_of(fr, D):
     return out
 
 
-def _coords(fr, D, h, rng=None, n=None):
+def _coords(fr, D, h, rng=None, n=None, xs=None):
     """vertex coordinates (exact rationals) of an index-space fracture; optional perturbation off the grid nodes"""
     ts = [t for t in range(D) if t != fr["o"]]
     if D == 2:
@@ -375,7 +412,7 @@ def _coords(fr, D, h, rng=None, n=None):
         a, b = ts
         cyc = [(fr["lo"][a], fr["lo"][b]), (fr["hi"][a], fr["lo"][b]), (fr["hi"][a], fr["hi"][b]), (fr["lo"][a], fr["hi"][b])]
         idx = [{a: p, b: q, fr["o"]: fr["k"]} for p, q in cyc]
-    pts = [[F(v[d]) * h[d] for d in range(D)] for v in idx]
+    pts = [[(xs[d][v[d]] if xs is not None else F(v[d]) * h[d]) for d in range(D)] for v in idx]
     if rng is not None:  # perturb: same shift of the constant coordinate for all vertices, tangential shifts per span end
         dn = F(rng.randint(-19, 19), 64) * h[fr["o"]]
         sh = {}
@@ -421,8 +458,17 @@ def _gen_cart(rng, tier, D):
         frs.append(f)
         faces |= ff
     rng.shuffle(frs)
-    perturb = rng.random() < 0.1
-    ptsl = [_coords(f, D, h, rng if perturb else None, n) for f in frs]
+    tensor = rng.random() < 0.2
+    perturb = (not tensor) and rng.random() < 0.1
+    xs = None
+    if tensor:  # non-uniform node coordinates (pp.meshing.tensor_grid), starting at 0
+        xs = []
+        for d in range(D):
+            c = [F(0)]
+            for _ in range(n[d]):
+                c.append(c[-1] + F(rng.choice([1, 1, 2, 3, 5]), rng.choice([1, 2, 4, 8])))
+            xs.append(c)
+    ptsl = [_coords(f, D, h, rng if perturb else None, n, xs) for f in frs]
     if D == 3:  # orientation / starting vertex of the rectangles
         for i, pts in enumerate(ptsl):
             r = rng.randrange(4)
@@ -434,8 +480,13 @@ def _gen_cart(rng, tier, D):
         for i, pts in enumerate(ptsl):
             if rng.random() < 0.5:
                 ptsl[i] = pts[::-1]
-    return {"kind": "cart", "dim": D, "nx": n, "phys": [frac(n[d] * h[d]) for d in range(D)], "fracs": _to_case_fracs(ptsl, D),
-            "entry": "cart_grid" if (perturb or rng.random() < 0.7) else "create_mdg"}
+    case = {"kind": "cart", "dim": D, "nx": n, "phys": [frac(xs[d][-1] if tensor else n[d] * h[d]) for d in range(D)], "fracs": _to_case_fracs(ptsl, D),
+            "entry": "tensor_grid" if tensor else ("cart_grid" if (perturb or rng.random() < 0.7) else "create_mdg")}
+    if tensor:
+        case["xs"] = [[frac(x) for x in c] for c in xs]
+        if rng.random() < 0.3:
+            case["entry"] = "create_mdg"
+    return case
 
 
 _SIMPLEX_2D = [
@@ -481,19 +532,12 @@ def _gen_simplex(rng, tier, D):
     return {"kind": "simplex", "dim": D, "phys": ["1"] * D, "fracs": out, "h": h}
 
 
-_counter = {"n": 0}
-
-
 def gen_case(rng, tier):
-    _counter["n"] += 1
-    if tier == "quick":
-        k = _counter["n"]
-        if k == 5:
-            return _gen_simplex(rng, tier, 2)
-        if k == 11:
-            return _gen_simplex(rng, tier, 3)
-        return _gen_cart(rng, tier, 2 if rng.random() < 0.5 else 3)
     r = rng.random()
+    if tier == "quick":  # gmsh cases are mostly left to the corpus (two of them) and the thorough tier
+        if r < 0.04:
+            return _gen_simplex(rng, tier, 2 if rng.random() < 0.6 else 3)
+        return _gen_cart(rng, tier, 2 if r < 0.52 else 3)
     if r < 0.1:
         return _gen_simplex(rng, tier, 2 if rng.random() < 0.6 else 3)
     return _gen_cart(rng, tier, 2 if r < 0.55 else 3)
@@ -567,12 +611,73 @@ def _expected_faces_per_cell(sd):
     return 2 * sd.dim
 
 
+def _node_split_check(sd):
+    """Every geometric node position on a fracture: the cells around it fall into connected components (connected through
+    unsplit faces that contain the position); cells of one component must share ONE node index there, different components
+    must use different indices (what split_nodes has to achieve). Returns None or a description."""
+    if sd.dim < 1 or sd.num_cells == 0:
+        return None
+    pos = {}
+    for n in range(sd.nodes.shape[1]):
+        pos.setdefault(tuple(sd.nodes[:, n].tolist()), []).append(n)
+    fn = sd.face_nodes.tocsc()
+    cf = sd.cell_faces.tocsr()
+    cfc = sd.cell_faces.tocsc()
+    if fn.shape[0] != sd.nodes.shape[1] or sd.num_nodes != sd.nodes.shape[1]:
+        return f"face_nodes has {fn.shape[0]} rows, nodes has {sd.nodes.shape[1]} columns, num_nodes is {sd.num_nodes}"
+    on_frac = np.zeros(sd.nodes.shape[1], dtype=bool)
+    for f in np.nonzero(sd.tags["fracture_faces"])[0]:
+        on_frac[fn.indices[fn.indptr[f]:fn.indptr[f + 1]]] = True
+    fnr = fn.tocsr()
+    for key, idx in pos.items():
+        if len(idx) == 1 and not on_frac[idx[0]]:
+            continue
+        faces = set()
+        for n in idx:
+            faces.update(fnr.indices[fnr.indptr[n]:fnr.indptr[n + 1]].tolist())
+        cells = set()
+        for f in faces:
+            cells.update(cf.indices[cf.indptr[f]:cf.indptr[f + 1]].tolist())
+        # node index used by every cell at this position
+        used = {}
+        for c in cells:
+            ns = set()
+            for f in cfc.indices[cfc.indptr[c]:cfc.indptr[c + 1]]:
+                ns.update(set(fn.indices[fn.indptr[f]:fn.indptr[f + 1]].tolist()) & set(idx))
+            if len(ns) != 1:
+                return f"cell {c} uses node indices {sorted(ns)} at position {list(key)}"
+            used[c] = ns.pop()
+        parent = {c: c for c in cells}
+
+        def find(a):
+            while parent[a] != a:
+                parent[a] = parent[parent[a]]
+                a = parent[a]
+            return a
+        for f in faces:
+            cs = cf.indices[cf.indptr[f]:cf.indptr[f + 1]]
+            if cs.size == 2:
+                parent[find(int(cs[0]))] = find(int(cs[1]))
+        comp_node = {}
+        for c in cells:
+            r = find(c)
+            if comp_node.setdefault(r, used[c]) != used[c]:
+                return f"connected cells around position {list(key)} use different node indices"
+        if len(set(comp_node.values())) != len(comp_node) or len(comp_node) != len(idx):
+            return (f"position {list(key)}: {len(comp_node)} groups of cells separated by fracture faces, node indices {sorted(idx)} "
+                    f"assigned as {sorted(comp_node.values())}")
+    return None
+
+
 def oracle(case):
     try:
         mdg = _build(case)
     except Exception as e:
         return _fail(f"build-raises:{type(e).__name__}", f"building the mixed-dimensional grid raised {type(e).__name__}: {str(e)[:200]}")
-    return _oracle_mdg(mdg, case)
+    try:
+        return _oracle_mdg(mdg, case)
+    except (IndexError, AssertionError) as e:  # inconsistent array sizes of the grid objects (only seen on mutated code)
+        return _fail(f"grid-arrays-inconsistent:{type(e).__name__}", f"reading the mixed-dimensional grid failed: {type(e).__name__}: {str(e)[:200]}")
 
 
 def _oracle_mdg(mdg, case):
@@ -609,10 +714,9 @@ def _oracle_mdg(mdg, case):
             fs, sg = cf.indices[sl], cf.data[sl]
             if fs.size != want or len(set(fs.tolist())) != want:
                 return _fail("cells-preserved:faces-per-cell", f"dim {sd.dim}: cell {c} has faces {fs.tolist()}, expected {want} distinct faces")
-            if sd.dim > 1 or True:
-                tot = (sd.face_normals[:, fs] * sg).sum(axis=1)
-                if np.max(np.abs(tot)) > 1e-9 * scale ** max(sd.dim - 1, 0):
-                    return _fail("cells-preserved:closed", f"dim {sd.dim}: the signed face normals of cell {c} do not add up to zero ({tot.tolist()})")
+            tot = (sd.face_normals[:, fs] * sg).sum(axis=1)
+            if np.max(np.abs(tot)) > 1e-9 * scale ** max(sd.dim - 1, 0):
+                return _fail("cells-preserved:closed", f"dim {sd.dim}: the signed face normals of cell {c} do not add up to zero ({tot.tolist()})")
             outw = ((sd.face_centers[:, fs] - sd.cell_centers[:, [c]]) * sd.face_normals[:, fs]).sum(axis=0) * sg
             if np.any(outw <= 0):
                 return _fail("outward-normal-direction", f"dim {sd.dim}: cell {c}: sign * normal does not point out of the cell for faces {fs[outw <= 0].tolist()}")
@@ -746,11 +850,13 @@ def _oracle_mdg(mdg, case):
                 ref = (p.face_normals[:, g].copy(), p.face_centers[:, g].copy())
             sgn = float(np.dot(p.cell_centers[:, c] - ref[1], ref[0]))
             side_sign[m // s.num_cells].add(sgn > 0)
+        if nside == 2:
+            # documented convention of _init_projections: first all cells of side one on the ORIGINAL faces, then side two on the duplicates
+            n = s.num_cells
+            if any(used[l] >= used[n + l] for l in range(n)) or any(used[l] != min(pair_of[l]) for l in range(n)):
+                return _fail(f"mortar-side-order:{tag}", f"{tag}: the first mortar side is not on the original (lower-numbered) faces: {used}")
         if len(set(used)) != len(used):
             return _fail(f"mortar-face-twice:{tag}", f"{tag}: a host face is used by two mortar cells: {used}")
-        if nside == 2 and p.dim == D:
-            # (the host is split by the plane of the fracture; for lower-dimensional hosts, also planar, the same holds)
-            pass
         if nside == 2 and (len(side_sign[0]) != 1 or len(side_sign[1]) != 1 or side_sign[0] == side_sign[1]):
             return _fail(f"mortar-side-mixed:{tag}", f"{tag}: the host cells of one mortar side lie on both sides of the fracture")
     # tags mark exactly the coupled faces
@@ -763,6 +869,11 @@ def _oracle_mdg(mdg, case):
             return _fail(f"tags:{sd.dim}d", f"dim {sd.dim}: fracture_faces tag differs from the set of coupled faces at faces {bad}")
         if np.any(t & np.asarray(sd.tags["tip_faces"], dtype=bool)):
             return _fail(f"tags-tip:{sd.dim}d", f"dim {sd.dim}: a coupled face is also tagged as tip")
+    # nodes are split exactly along the fractures
+    for sd in mdg.subdomains():
+        r = _node_split_check(sd)
+        if r:
+            return _fail(f"node-split:{sd.dim}d", f"dim {sd.dim}: {r}")
     # every fracture grid is coupled to the host
     for g in fgrids:
         if n_intf_of_low.get(id(g), 0) != 1:
@@ -780,16 +891,17 @@ def shrink_candidates(case):
     if len(fr) > 1:
         for i in range(len(fr)):
             yield dict(case, fracs=fr[:i] + fr[i + 1:])
-    if case["kind"] == "cart" and case.get("entry") != "cart_grid":
-        yield dict(case, entry="cart_grid")
+    if case["kind"] == "cart" and case.get("entry") == "create_mdg":
+        yield dict(case, entry="tensor_grid" if "xs" in case else "cart_grid")
 
 
 def stats(cases, impl_outs):
-    st = {"cart2": 0, "cart3": 0, "simplex2": 0, "simplex3": 0, "create_mdg_entry": 0, "n_fracs": {}, "hosts": 0, "interfaces": 0, "two_sided": 0, "one_sided": 0,
+    st = {"cart2": 0, "cart3": 0, "simplex2": 0, "simplex3": 0, "create_mdg_entry": 0, "tensor": 0, "n_fracs": {}, "hosts": 0, "interfaces": 0, "two_sided": 0, "one_sided": 0,
           "host_dims": {}}
     for c, o in zip(cases, impl_outs):
         st[("cart" if c["kind"] == "cart" else "simplex") + str(c["dim"])] += 1
         st["create_mdg_entry"] += c.get("entry") == "create_mdg"
+        st["tensor"] += "xs" in c
         k = str(len(c["fracs"]))
         st["n_fracs"][k] = st["n_fracs"].get(k, 0) + 1
         if isinstance(o, list):
